@@ -9,6 +9,8 @@
  C11.unmask    every word-wise XOR loop over a byte buffer is preceded by the grow-then-shrink idiom that guarantees 4 bytes of slack
  C11.handshake the accept key is SHA-1 of key + RFC 6455 GUID, Base64 of all digest bytes
  R-LOCK        WebSocketServer::_clients is only modified under its mutex
+ C11.partial   the blocking socket read/write loops under receive()/send() pass exactly the remainder on retry and stop exactly at the
+               requested total (a frame delivered in several TCP segments is still read whole)
  Byte-identical in-order delivery for all sizes and fragmentations is not decided."""
 import os
 import ir, q, bytesets
@@ -19,7 +21,7 @@ GUID = '258EAFA5-E914-47DA-95CA-C5AB0DC85B11'
 
 
 def run(ctx):
-    units = [os.path.join(ir.REPO, 'src', 'WebSocket.cpp')]
+    units = [os.path.join(ir.REPO, 'src', 'WebSocket.cpp'), os.path.join(ir.REPO, 'src', 'Socket.cpp')]
     if ctx.tier == 'thorough':
         units += [u for u in ir.library_units() if u not in units]
     prog = ir.load_units(units)
@@ -35,6 +37,8 @@ def run(ctx):
     check_unmask(ctx, prog, [send, recv])
     check_handshake(ctx, prog)
     check_clients(ctx, prog)
+    import C16
+    C16.check_partial(ctx, prog, rule='C11.partial', files=False)
     return __doc__.split('\n\n', 1)[1]
 
 
